@@ -8,6 +8,8 @@
     peek COND                   TrapSet::peek_state
     catch SIG | take | takeif SIG
     deliver SIG                 signal sent to the process, collected by Env::poll_signals
+    blk A+B/C+INT               an interactive shell runs a built-in that never finishes by itself; the batches of
+                                signals `A B`, then `C INT` are sent; SIGINT interrupts it (`execute_builtin`)
     run N                       run_traps_for_caught_signals with `$?` = N; the body of `c<N>` is chosen by N / 1000:
                                 0 `probe N; st 7`, 1 `probe N; return 3`, 2 `probe N; exit 4`, 3 `probe N; false`
   Observation per operation: `r=<result>` and, for every condition whose view changed,
@@ -44,6 +46,8 @@ inductive DOp where
   | runTraps (exit : Nat)
   /-- a signal sent to the process, then `run_traps_for_caught_signals` (which polls itself) -/
   | raiseRun (sig : Nat) (exit : Nat)
+  /-- an interactive shell runs a built-in that never finishes; batches of signals arrive -/
+  | blocked (batches : List (List Nat))
 
 def parseOp (k : Nat) (t : String) : Option DOp :=
   match words t with
@@ -63,6 +67,13 @@ def parseOp (k : Nat) (t : String) : Option DOp :=
     let n ← parseSig s
     if n = SIGKILL ∨ n = SIGSTOP then none else pure (.op (.deliver n))
   | ["run", n] => do pure (.runTraps (← n.toNat?))
+  | ["blk", b] => do
+    let batches ← (b.splitOn "/").mapM fun x => (x.splitOn "+").mapM parseSig
+    -- the last batch, and only it, contains INT; KILL/STOP cannot be sent
+    let ok := (batches.getLast?.map (·.contains SIGINT)).getD false
+      && batches.dropLast.all (fun x => !x.contains SIGINT)
+      && batches.all (fun x => !x.contains SIGKILL && !x.contains SIGSTOP)
+    if ok then pure (.blocked batches) else none
   | ["irun", s, n] => do
     let sig ← parseSig s
     if sig = SIGKILL ∨ sig = SIGSTOP then none else pure (.raiseRun sig (← n.toNat?))
@@ -128,6 +139,13 @@ def showDivert : Option Divert → String
 def polledBy (st : State) (sig : Nat) : List Nat :=
   if st.sys.disp sig = .catch ∧ (st.sys.selectMask.getD st.sys.blocked) sig = false then [sig] else []
 
+/-- `execute_builtin` treats the built-in as interruptible, and SIGINT can reach the shell -/
+def blockable (st : State) : Bool :=
+  st.sys.disp SIGINT = .catch && sigintHasDefaultAction st.traps
+
+/-- of a batch sent to the process, what the system reports: the signals with `Catch` installed -/
+def reported (st : State) (batch : List Nat) : List Nat := batch.filter fun s => (polledBy st s).contains s
+
 def opResult (st : State) : DOp → String
   | .op (.setAction c a o ov) => showErr (setAction st c a o ov).2
   | .op (.peek c) => showTS (peekState st c).2
@@ -145,6 +163,10 @@ def opResult (st : State) : DOp → String
     let r := runTrapsForCaughtSignals body7 false st.traps e
     let runs := r.runs.map fun (s, c) => s!"{condName s}:{c}@{e}"
     s!"runs={",".intercalate runs};exit={r.exit};div={showDivert r.divert}"
+  | .blocked batches =>
+    if blockable st then
+      if (interruptedBuiltin st.traps (batches.map (reported st))).2 then "int386" else "hang"
+    else "n/a"
   | .raiseRun sig e =>
     let r := runTrapsAfterPoll body7 false (polledBy st sig) st.traps e
     let runs := r.runs.map fun (s, c) => s!"{condName s}:{c}@{e}"
@@ -156,6 +178,10 @@ def dstep (st : State) : DOp → State
   | .runTraps e => { st with traps := (runTrapsForCaughtSignals body7 false st.traps e).traps }
   | .raiseRun sig e =>
     { st with traps := (runTrapsAfterPoll body7 false (polledBy st sig) st.traps e).traps }
+  | .blocked batches =>
+    if blockable st then
+      { st with traps := (interruptedBuiltin st.traps (batches.map (reported st))).1 }
+    else st
 
 /-- Spec verdict for a `run`: the bodies run followed by the bodies still pending are exactly the
     bodies that were pending, once each (whatever the bodies end in); `$?` is preserved, except that
